@@ -3,6 +3,7 @@ import GroupbyVerif.Lemmas.Dispatch
 import GroupbyVerif.Model.GenTable
 import GroupbyVerif.Bridge
 import GroupbyVerif.Generated.Constants
+import GroupbyVerif.LoopBridge.Reduce
 
 /-!
 # C04 — Block-wise reduction equals single-pass reduction (kernel contract)
@@ -269,5 +270,55 @@ theorem source_loop_shape :
     Generated.Constants.reduceUpdatesOwnSlot = true ∧ Generated.Constants.reduceKeyFromRow = true ∧
     Generated.Constants.reduceRowsInOrder = true ∧ Generated.Constants.reduceCountStartsAtZero = true ∧
     Generated.Constants.guardReduce = true := by decide
+
+/-! ### the loops of the current source, end to end
+
+`Generated.Loops.group_by_reduce` / `reduce_array_pair` are regenerated from `groupby_lib/groupby/numba.py` on every
+run (tools/translate_loops.py); `LoopBridge/Reduce.lean` proves them equal to `groupByReduce` / `mergePair`.  Composed
+with the reducers regenerated from `ScalarFuncs` and with `kernel_eq_def`, the statements below are about what the
+source says *now*: no hand-written model is left between the source text and the per-group definition. -/
+
+/-- **the translated `_group_by_reduce`, run with the translated reducer of kernel `kn`, returns the per-group
+definition** at every group, for every interleaving of groups and nulls (rows in array order) -/
+theorem source_kernel_eq_def (kn : Kernel) (k : Kind) (codes : List Int) (vals : List Val)
+    (hlen : codes.length = vals.length) (tlen : Int) (cib : Bool) (g : Int) (hg : 0 ≤ g) :
+    let r := Generated.Loops.group_by_reduce k codes.length (arrOf codes 0) vals.length (arrOf vals .nan) tlen
+      (fun _ => kn.init k) (kn.red generatedReducers k) false [] cib
+    r.2 = false ∧ (r.1.1 g, r.1.2 g) = specKernel kn k (valsOf (codes.zip vals) g) := by
+  intro r
+  have h := LoopBridge.group_by_reduce_plain k (kn.red generatedReducers k) (kn.init k) codes vals hlen tlen cib g hg
+  refine ⟨h.1, ?_⟩
+  rw [h.2, generated_eq_model, kernel_eq_def _ _ _ _ hg]
+
+/-- the same through an indexer (positional mask, or a boolean mask after `nonzero`): the per-group definition on
+`rows[indexer]` with array-indexing semantics (repeats, negative positions), and no bounds error is raised -/
+theorem source_kernel_indexer_eq_def (kn : Kernel) (k : Kind) (codes : List Int) (vals : List Val)
+    (hlen : codes.length = vals.length) (tlen : Int) (ps : List Int) (sel : List Row)
+    (hsel : takePositions (codes.zip vals) ps = some sel) (g : Int) (hg : 0 ≤ g) :
+    let r := Generated.Loops.group_by_reduce k codes.length (arrOf codes 0) vals.length (arrOf vals .nan) tlen
+      (fun _ => kn.init k) (kn.red generatedReducers k) true ps true
+    r.2 = false ∧ (r.1.1 g, r.1.2 g) = specKernel kn k (valsOf sel g) := by
+  intro r
+  have h := LoopBridge.group_by_reduce_indexer k (kn.red generatedReducers k) (kn.init k) codes vals hlen tlen ps sel
+    hsel g hg
+  refine ⟨h.1, ?_⟩
+  rw [h.2, generated_eq_model, kernel_eq_def _ _ _ _ hg]
+
+/-- the translated `reduce_array_pair` is the pairwise merge the block-wise theorems are about -/
+theorem source_merge_eq_mergePair (kn : Kernel) (k : Kind) (n : Nat) (x y : Int → Val) (cx cy : Int → Int) (i : Nat)
+    (hi : i < n) :
+    let r := Generated.Loops.reduce_array_pair k n x n y (kn.mergeRed generatedReducers k) true n cx true n cy
+    r.2 = false ∧ (r.1 i, cx i + cy i) = mergePair (kn.mergeRed modelReducers k) (x i, cx i) (y i, cy i) := by
+  intro r
+  have h := LoopBridge.reduce_array_pair_eq k (kn.mergeRed generatedReducers k) n x y cx cy i hi
+  rw [generated_eq_model] at h
+  exact h
+
+/-- non-vacuity: two interleaved groups, a null key, a NaN -/
+example :
+    let r := Generated.Loops.group_by_reduce .f 4 (arrOf [1, 0, -1, 1] 0) 4
+      (arrOf [.num 3, .nan, .num 9, .num 4] .nan) 3 (fun _ => (Kernel.max).init .f)
+      ((Kernel.max).red generatedReducers .f) false [] true
+    (r.1.1 1, r.1.2 1, r.1.1 0, r.1.2 0, r.2) = (.num 4, 2, .nan, 0, false) := by decide
 
 end GV.C04
